@@ -1398,6 +1398,14 @@ class Analyzer(Analysis):
                 t0 = self.types[c["targs"][0]]
                 if t0["k"] == "adt":
                     tshort = t0["name"].split("::")[-1]
+            if tshort is None and c.get("local") and recv_key is not None and args and args[0].get("o") in ("copy", "move"):
+                # a free helper function taking the value by reference as its first parameter (`fn write_x(q: &Question, out)`)
+                t0 = self.op_ty(args[0])
+                for _ in range(3):
+                    if t0 is not None and t0["k"] in ("ref", "ptr"):
+                        t0 = self.types[t0["t"]]
+                if t0 is not None and t0["k"] == "adt":
+                    tshort = t0["name"].split("::")[-1]
             if writer is not None:
                 wafter = self.sym("wpos(%s)@%d'" % (writer, bi), (0, USIZE_HI))
                 st.store["wpos:" + writer] = ("lin", wafter)
